@@ -15,7 +15,7 @@ import random
 
 from .. import core
 
-SPELL = {"U": ["A", "É", "K"], "L": ["b", "é", "x"], "Z": ["1", ".", "-", "'", "\u00a0", "\x0c", "\u2003"], "W": [" ", "\t", "\n"], "T": ["~"], "C": [","],
+SPELL = {"U": ["A", "É", "K"], "L": ["b", "é", "x"], "Z": ["1", ".", "-", "'", "\u00a0", "\x0c", "\u2003"], "W": [" ", "\t", "\n", "\r\n"], "T": ["~"], "C": [","],
          "{": ["{"], "}": ["}"], "EU": ["\\O", "\\A"], "EL": ["\\o", "\\i"], "EA": ["\\'", "\\`", "\\^"]}
 ACCENTS = set("'`^\"=.")   # not '~': BibTeX and the code read a tie after a backslash as a word separator
 
@@ -91,6 +91,14 @@ def via_middleware(bib, text):
     e = M.Entry("article", "k", [M.Field("author", list(names)), M.Field("title", "t")], start_line=1, raw="@article{k}")
     lib = bib.Library([e])
     try:
+        if len(text) % 3 == 0:
+            # the entry has a past: it was split and merged before (other names, whatever those runs left on it stays),
+            # then the author list was edited to the names under test
+            e.fields[0].value = ["Old de Name, Jr, First"]
+            sp, mg = m.SplitNameParts(allow_inplace_modification=bool(len(text) % 2)), m.MergeNameParts(allow_inplace_modification=True)
+            lib = mg.transform(sp.transform(lib))
+            e = lib.blocks[0]
+            e.fields[0].value = list(names)
         out = m.SplitNameParts(allow_inplace_modification=False).transform(lib)
     except Exception as ex:  # noqa: an invalid name must become an error block, never an exception
         return {"err": "exception", "msg": f"{type(ex).__name__}: {ex}", "keeps_entry": False, "writable": False}
@@ -105,6 +113,8 @@ def via_middleware(bib, text):
             writable = False
         return {"err": True, "keeps_entry": keeps, "writable": writable}
     p = b["author"][0 if len(names) == 1 else 1]
+    if not hasattr(p, "first"):
+        return {"err": False, "parts": {"first": [], "von": [], "last": [], "jr": [], "not_split": repr(p)}}
     return {"err": False, "parts": {"first": list(p.first), "von": list(p.von), "last": list(p.last), "jr": list(p.jr)}}
 
 
@@ -151,8 +161,9 @@ def report(chk, clause, text, got, want):
 
 
 def random_name(rnd):
-    up = ["Knuth", "Donald", "E.", "Jean", "{Foo Bar}", "{\\'E}douard", "\\'Etienne", "Å", "III", "AA", "{\\OE}uvre", "O'Neil", "X-Y"]
-    lo = ["de", "la", "van", "der", "von", "{\\'e}s", "\\'e", "d'", "bb", "dd"]
+    up = ["Knuth", "Donald", "E.", "Jean", "{Foo Bar}", "{\\'E}douard", "\\'Etienne", "Å", "III", "AA", "{\\OE}uvre", "O'Neil", "X-Y",
+          "{Barnes and Noble}", "{Simon AND Schuster, Inc.}"]
+    lo = ["de", "la", "van", "der", "von", "{\\'e}s", "\\'e", "d'", "bb", "dd", "{de Geus and sons}"]
     zz = ["{von}", "12", "{AA}", "{}", "-", "{\\relax}", "...", "\u00a0x", "x\u00a0", "\x0cJean\u2003", "\x0b"]
     n = rnd.randint(1, 12)
     ws = [rnd.choice(up * 3 + lo * 2 + zz) for _ in range(n)]
